@@ -408,7 +408,7 @@ func c12Alphabet() []EngOp {
 	}
 }
 
-var c12EngCfg = EngCfg{"l0x2", 32 << 20, 2, config.SyncImmediate}
+var c12EngCfg = EngCfg{"l0x2", 32 << 20, 2, config.SyncImmediate, 0}
 
 // engine-level oracle: reads = model now, after reopen, and after reopen with the flushed logs retired
 func c12EngOracle(r *EngRun, prog []EngOp) string {
